@@ -24,7 +24,7 @@ func init() {
 				"(slash) in both punish functions each slashed amount goes to AddTotalSlashed (base coin) or SubCoinVolume+SubCoinReserve+AddTotalSlashed(return) (custom coin); EndBlock's reward remainder goes to AddTotalSlashed; " +
 				"(carry) validators' accumulated rewards survive a validator-set rebuild or return to the pool (known finding on key change). NOT decided: equality of amounts, rounding, bancor reserve math, module internals.",
 			Assumptions: stdAssumptions,
-			Rules:       []string{"C01.own", "C01.fill", "C01.fee", "C01.move", "C01.slash", "C01.carry"},
+			Rules:       []string{"C01.own", "C01.fill", "C01.fee", "C01.move", "C01.slash", "C01.carry", "C01.share"},
 		},
 		Run: runC01,
 	})
@@ -131,6 +131,7 @@ func sortedSig(m *RunModel) string {
 }
 
 func runC01(c *core.Ctx) {
+	defer checkShare(c, "C01.share")
 	// ---- own
 	nOwn := 0
 	for _, hf := range holdFields {
